@@ -13,6 +13,9 @@ import (
 
 // Policy parametrises a run of the engine.
 type Policy struct {
+	// SpawnDeclared: a declared function started with `go` is walked as a spawned sub-path (like a function literal) when this
+	// returns true for it and Inline admits it; otherwise only the go event is recorded.
+	SpawnDeclared func(fn *types.Func) bool
 	// Inline decides whether a statically resolved in-package callee is interpreted at the call site.
 	Inline func(fn *types.Func, depth int) bool
 	// Role classifies an event (mostly calls) into the role table.
@@ -1040,7 +1043,7 @@ func (e *Engine) execGo(st *State, s *ast.GoStmt) []*State {
 			ev.FnLit = lit
 		}
 		// a declared function started with `go` is a subject of its own (entry function); only literals are walked here.
-		if ev.FnLit == nil {
+		if ev.FnLit == nil && !(c.callee != nil && e.Policy.SpawnDeclared != nil && e.Policy.SpawnDeclared(c.callee)) {
 			out = append(out, c.st)
 			continue
 		}
